@@ -98,6 +98,8 @@ def check(ctx, rep):
     provenance(ctx, rep, 'C18b')
     from . import C01
     C01.value_text(ctx, rep, 'C18b')
+    from .common import value_preserving_rule
+    value_preserving_rule(ctx, rep, 'C18b', ('peptacular.proforma.proforma_dataclasses', 'peptacular.proforma.proforma_parser', 'peptacular.proforma.input_convert', 'peptacular.mass_calc'))
     n = add_fwd(rep, forwarding(an, program, ['include_plus'], callers={FQ}), 'C18c')
     rep.floor('FWD', 'include_plus forwarding in condense_to_mass_mods', n, 1)
     add_ret(rep, param_reaches_returns(an, program, FQ, ['sequence', 'include_plus', 'precision']), 'C18c')
